@@ -101,6 +101,8 @@ def mon_c04(case, obs, prefix):
     bad = []
     deleted = set()    # ghost: SEIDs whose Deletion Request was accepted and which no establishment has been given since
     for i, ev, o, prev, prev_dp, dup in walk(case, obs, prefix):
+        if ev["t"] == "recv" and not dup and o.get("panicked") and ev["msg"]["k"] == "est":
+            deleted.clear()     # an establishment aborted by a panic may have taken a released SEID without ever answering
         if ev["t"] == "recv" and not dup and not o.get("fault") and not o.get("panicked") and ev["msg"]["k"] in ("mod", "del", "est"):
             sd = o["sends"] or []
             if ev["msg"]["k"] in ("mod", "del") and ev["msg"]["seid"] in deleted:
